@@ -429,13 +429,13 @@ def _secp_cases(rng, T):
     # single-bit flips: every one in thorough, a sample in quick
     def sample(nbits, k):
         return range(nbits) if T else sorted(rng.sample(range(nbits), k))
-    for i in sample(256, 12):
+    for i in sample(256, 10):
         out.append(case("secp-verify-bitflip-pk", "verify", "secp", _flip(pk0, i), m0, sg0, strict=True))
-    for i in sample(256, 6):
+    for i in sample(256, 4):
         out.append(case("secp-verify-bitflip-msg", "verify", "secp", pk0, _flip(m0, i), sg0, strict=True))
-    for i in sample(256, 8):
+    for i in sample(256, 6):
         out.append(case("secp-verify-bitflip-r", "verify", "secp", pk0, m0, _flip(sg0, i), strict=True))
-    for i in sample(256, 8):
+    for i in sample(256, 6):
         out.append(case("secp-verify-bitflip-s", "verify", "secp", pk0, m0, _flip(sg0, 256 + i), strict=True))
     # r in {p-1, p, p+1}, s in {0, n-1, n, n+1}, and the all-ones encodings
     for r in [P - 1, P, P + 1, 2 ** 256 - 1, 0]:
@@ -537,7 +537,7 @@ def _small_cases(rng, T, cname):
     for x in list(range(0, p + 2)) + [2 * p, 2 ** 256 - 1]:
         out.append(case("%s-lift-x-all" % cname, "lift_x", cname, r_b32(x), strict=True))
     # ---- verify: for a few (key, message): EVERY (r, s) with r in 0 .. p+1, s in 0 .. 2n+1; every pk x
-    npairs = 6 if T else 2
+    npairs = 3 if T else 2
     pairs = []
     tries = 0
     while len(pairs) < npairs:
@@ -620,9 +620,9 @@ def extra_checks(ctx):
     small = [c for c in cases if c["args"][0] != "secp"]
     secp = [c for c in cases if c["args"][0] == "secp" and not c["cls"].startswith("vector-")]
     T = tier == "thorough"
-    sample = (vec if T else [c for c in vec if c["op"] != "sign"] + [c for c in vec if c["op"] == "sign"][:3])
+    sample = (vec if T else [c for c in vec if c["op"] != "sign"] + [c for c in vec if c["op"] == "sign"][:2])
     sample += rng.sample(small, min(len(small), 3000 if T else 400))
-    sample += rng.sample(secp, min(len(secp), 150 if T else 25))
+    sample += rng.sample(secp, min(len(secp), 150 if T else 12))
     out = []
     n = 0
     for c in sample:
